@@ -28,22 +28,16 @@ def run(ctx):
     # ... and with the one-line repair the whole protocol satisfies P_IPAM
     design = [{"module": "MC_IPAM", "cfg": "MC_c19_quick.cfg", "thorough_cfg": "MC_c19.cfg", "workers": 4,
                "allow_zero": _ipam.ALLOW_ZERO, "timeout": 600, "thorough_timeout": 1700, "heap": "4g"}]
-    P, _ = _ipam.leg(ctx, BASE, "tlc-schedules", design=design,
+    P, _ = _ipam.leg(ctx, BASE, "tlc-schedules+seeded-concurrent", design=design,
                      gen={"module": "Gen_IPAM", "cfg": "Gen_sim_c19.cfg", "simulate": {"num": 80, "depth": 120},
-                          "thorough_simulate": {"num": 4000, "depth": 120}, "timeout": 600, "thorough_timeout": 1500},
-                     nontrivial=_ipam.overlapping, rule=RULE)
+                          "thorough_simulate": {"num": 2000, "depth": 120}, "timeout": 600, "thorough_timeout": 1500},
+                     n_random=(20, 500), mode="conc", nontrivial=_ipam.overlapping, rule=RULE)
     _ipam.handle_soft(ctx, P)
-    if ctx.violations:
+    if ctx.violations or q:
         return
-    if not q:
-      P, _ = _ipam.leg(ctx, BASE, "tlc-schedules-crash",
-                       gen={"module": "Gen_IPAM", "cfg": "Gen_sim_c19x.cfg", "simulate": {"num": 60, "depth": 120},
-                            "thorough_simulate": {"num": 3000, "depth": 120}, "timeout": 600, "thorough_timeout": 1500},
-                       nontrivial=_ipam.overlapping, rule=RULE)
-      if ctx.violations:
-        return
-    P, _ = _ipam.leg(ctx, BASE, "seeded-concurrent", n_random=(25, 1200), mode="conc", nontrivial=_ipam.overlapping, rule=RULE)
-    _ipam.handle_soft(ctx, P)
+    _ipam.leg(ctx, BASE, "tlc-schedules-crash",
+              gen={"module": "Gen_IPAM", "cfg": "Gen_sim_c19x.cfg", "simulate": {"num": 1500, "depth": 120}, "timeout": 1500},
+              nontrivial=_ipam.overlapping, rule=RULE)
 
 
 def selftest(ctx):
